@@ -96,14 +96,14 @@ theorem size_text_is_render (S : Schema) (d : StructDef) :
     buffer for members laid out before their discriminant) -/
 theorem deserialize_text_is_render (S : Schema) (ty : String) (d : StructDef) :
     deserializeBody S ty d =
-      ((if d.abstract then (if (ownFields d).any (·.name == "size") then [] else ["size_ = len(buffer)"])
+      ((if d.abstract then (if (ownSizeMember d).isSome then [] else ["size_ = len(buffer)"])
         else ["buffer = memoryview(payload)", "instance = " ++ ty ++ "()"]) ++
        (match d.base with
         | some b => ["(window_start, window_end) = " ++ b ++ "._deserialize(buffer, instance)", "buffer = buffer[window_start:window_end]"]
         | none => [])) ++
       renderItems (emitDeserialize S d) ++ ["", "# pylint: disable=protected-access"] ++
       (((ownFields d).filter fun f => f.kind.carries).map fun f => "instance._" ++ printerName f.name ++ " = " ++ printerName f.name) ++
-      [if d.abstract then "return (size_ - len(buffer), size_)" else "return instance"] :=
+      [if d.abstract then "return (" ++ sizeLocal d ++ " - len(buffer), " ++ sizeLocal d ++ ")" else "return instance"] :=
   deserializeBody_eq S ty d
 
 /-- running the emitted `size` property (the base class's statements, then the class's own) on an object
@@ -150,7 +150,7 @@ theorem emitted_serialize_roundtrip (S : Schema) (T : String → Bytes → Bytes
 /-! ### the emitted `deserialize` program
 
 `WFGD` (EmissionDes.lean) collects what the generator needs of a schema for the emitted `deserialize` to mean what
-the layout says (names written unmangled as locals, unsigned counts and sizes, the size member called `size`,
+the layout says (names written unmangled as locals, unsigned counts and sizes, only the size member called `size`,
 own members of a derived class referring to own members only). `d.noUnion`: no member is laid out before its
 discriminant (the temporary-buffer mechanism is not covered by the theorem yet). -/
 
@@ -283,12 +283,12 @@ example : emittedReads Generated.Symbol.schema C01.Examples.transfer [7, 7, 7] =
 example : emittedReads Generated.Symbol.schema C01.Examples.aggregate [1] = true := by decide +kernel
 example : emittedReads Generated.Nem.schema (C01.Examples.nemMultisig C01.Examples.nemMsg) [] = true := by decide +kernel
 
-/-! a finding of the generator (replayed on the real generator; not reachable from the shipped schemas, whose size
-    members are all called `size`): `_deserialize` of an abstract class returns the window `(size_ - len(buffer), size_)`,
-    and `size_` is the value of the size member only if that member is called `size` -- otherwise it is `len(buffer)`,
-    the length of everything that was passed in. With `@size(total_size)` the derived class then reads its own members
-    from the wrong place as soon as the buffer continues after the object. The emission model reproduces the text; the
-    layout interpreter reads the object. `WFGD` excludes the schema. -/
+/-! a former finding of the generator, repaired in /repo (commit "fix: _deserialize of an abstract struct uses its size
+    member whatever it is called"): `_deserialize` of an abstract class returned the window `(size_ - len(buffer), size_)`,
+    and `size_` was the value of the size member only if that member was called `size` -- otherwise `len(buffer)`, the
+    length of everything passed in, so that with `@size(total_size)` the derived class read its own members from the
+    wrong place as soon as the buffer continued after the object (`pay = 9` instead of `5` below). The emission model
+    follows the repaired generator (`sizeLocal`); on the witness schema the emitted program now is the interpreter. -/
 def sizeNameSchema : Schema := [
   ("Leaf", .struct { fields := [{ name := "amount", kind := .int 2 false }] }),
   ("Entity", .struct { abstract := true, disc := ["tag"], fields := [
@@ -300,21 +300,21 @@ def sizeNameSchema : Schema := [
     { name := "pay", kind := .int 1 false },
     { name := "trailing", kind := .array "Leaf" .fill 0 true none }] })]
 
-/-- `Child(pay = 5, trailing = [Leaf(0x0102)])` followed by four bytes `9`: the interpreter reads the object, the emitted
-    `deserialize` (as the real one) reads `pay = 9` and a `Leaf(0x0909)` -/
+/-- `Child(pay = 5, trailing = [Leaf(0x0102)])` followed by four bytes `9`: both read the object -/
 example :
-    (match sizeNameSchema.find "Child" with
-      | some (.struct d) =>
+    (match sizeNameSchema.find "Child", sizeNameSchema.find "Entity" with
+      | some (.struct d), some (.struct da) =>
         let r := recN sizeNameSchema C01.Examples.idT 3
         let payload : Bytes := [9, 0, 0, 0, 7, 0, 5, 2, 1, 9, 9, 9, 9]
-        WF sizeNameSchema && !WFGD sizeNameSchema &&
+        WF sizeNameSchema && WFGD sizeNameSchema && d.noUnion &&
         (match decConcrete sizeNameSchema C01.Examples.idT r "Child" d payload, emittedDeserialize sizeNameSchema C01.Examples.idT r "Child" d payload with
           | .ok v1, .ok v2 =>
             sameBytes (encode sizeNameSchema C01.Examples.idT "Child" v1) (.ok [9, 0, 0, 0, 7, 0, 5, 2, 1]) &&
-            sameBytes (encode sizeNameSchema C01.Examples.idT "Child" v2) (.ok [9, 0, 0, 0, 7, 0, 9, 9, 9])
+            sameBytes (encode sizeNameSchema C01.Examples.idT "Child" v2) (.ok [9, 0, 0, 0, 7, 0, 5, 2, 1])
           | _, _ => false) &&
-        (renderItems (emitDeserialize sizeNameSchema
-          (match sizeNameSchema.find "Entity" with | some (.struct da) => da | _ => default))).contains "buffer = buffer[4:total_size]"
-      | _ => false) = true := by decide +kernel
+        (deserializeBody sizeNameSchema "Entity" da).contains "buffer = buffer[4:total_size]" &&
+        (deserializeBody sizeNameSchema "Entity" da).contains "return (total_size - len(buffer), total_size)" &&
+        !(deserializeBody sizeNameSchema "Entity" da).contains "size_ = len(buffer)"
+      | _, _ => false) = true := by decide +kernel
 
 end SymbolVerif.C15
